@@ -137,6 +137,24 @@ class Ctx:
             self.note(n)
 
 
+def _between_cases():
+    """Hygiene between two cases run by one worker process: agents of the case before must not look live to the agents of the next one. An agent
+    that takes part in the calls in progress leaves its function as the local trace function of the running frames - the frames of this
+    worker among them, which outlive the case. (In an application an agent found there IS live; here it is a leftover.)"""
+    try:
+        handler_type = sys.modules['deep.processor.trigger_handler'].TriggerHandler
+    except KeyError:
+        return
+    try:
+        for frame in sys._current_frames().values():
+            while frame is not None:
+                if isinstance(getattr(frame.f_trace, '__self__', None), handler_type):
+                    frame.f_trace = None
+                frame = frame.f_back
+    except BaseException:
+        pass
+
+
 def _worker(job):
     modname, pid, tier, seed, descs = job
     os.environ.setdefault('PYTHONHASHSEED', '0')
@@ -147,6 +165,7 @@ def _worker(job):
     errors = []
     for desc in descs:
         try:
+            _between_cases()
             mod.run_case(ctx, desc)
         except BaseException as e:  # a crash of the harness is a broken check, not a violation
             errors.append((desc, ''.join(traceback.format_exception(type(e), e, e.__traceback__))[-3000:]))
